@@ -77,7 +77,8 @@ def build(g, chart, gvar):
 
     def code(kind, ident):
         if kind == 'guard':
-            base = 'G(%d, event)' % ident
+            # the guard also records whether contract-only names are visible to it (they must never be)
+            base = "G(%d, event) and NOTE('sent' in globals(), 'received' in globals(), '__old__' in globals())" % ident
             if gvar == 'idle':
                 return base + ' and idle(DI)'
             if gvar == 'after':
@@ -86,7 +87,7 @@ def build(g, chart, gvar):
         if kind == 'action':
             extra = "\nsend('b', k=v)" if ident == 0 else "\nnotify('note', k=v)"
             return "A(%d)\nv = v + 1" % ident + extra
-        base = c08.hook(kind, ident).replace('\nL.append(1)', '')
+        base = c08.hook(kind, ident).replace('\nL.append(1)', '').replace('\nQ.append(1)', '')
         if kind == 'exit' and ident == 0:     # what active() says when the outermost state is exited ends up in the
             # context; only contracts call active() earlier in the micro step (a cache filled by a contract shows here)
             base += "\nseen = seen + [[active(n) for n in NAMES]]"
@@ -154,6 +155,11 @@ def gen(g, chart, level, canary):
             evaluated[tag] += 1
             return tag == 'chk'       # holds when checked; would fail if it were evaluated while ignored
         return C
+    def mkNOTE(tag):
+        def NOTE(*flags):
+            runs[tag].it.context['leaks'].append(flags)
+            return True
+        return NOTE
     v0 = g.int('v0')
     DI = g.real('DI', 0)
     DA = g.real('DA', 0)
@@ -161,7 +167,8 @@ def gen(g, chart, level, canary):
     metas = {}
     for tag, ign in (('chk', False), ('ign', True)):
         inst = Inst(g, chart, 'id', sc=(sc, trs, cm), tag=tag, interp_kwargs={'ignore_contract': ign},
-                    extra_context={'C': mkC(tag), 'v': v0, 'DI': DI, 'DA': DA, 'seen': [], 'NAMES': list(cm.names)})
+                    extra_context={'C': mkC(tag), 'v': v0, 'DI': DI, 'DA': DA, 'seen': [], 'NAMES': list(cm.names),
+                                   'NOTE': mkNOTE(tag), 'leaks': []})
         metas[tag] = []
         inst.it.attach(lambda e, tag=tag: metas[tag].append(meta_key(e)))
         runs[tag] = inst
@@ -173,8 +180,8 @@ def gen(g, chart, level, canary):
         va, vb = step_view(chk, sa, ea), step_view(ign, sb, eb)
         if canary and vb is not None and vb[0] != 'error':
             vb = [vb[0], vb[1] + [[None, None, [], [], []]]]
-        ca = {k: v for k, v in chk.it.context.items() if k not in ('G', 'A', 'P', 'C')}
-        cb = {k: v for k, v in ign.it.context.items() if k not in ('G', 'A', 'P', 'C')}
+        ca = {k: v for k, v in chk.it.context.items() if k not in ('G', 'A', 'P', 'C', 'NOTE')}
+        cb = {k: v for k, v in ign.it.context.items() if k not in ('G', 'A', 'P', 'C', 'NOTE')}
         g.prove_all([
             ('same_macro_step', same_values(va, vb), lambda: dict(info(), checked=str(va), ignored=str(vb), where=where)),
             ('same_configuration', chk.it.configuration == ign.it.configuration, info),
